@@ -52,17 +52,17 @@ func resolveStruct(rv reflect.Value, fieldName string) (any, bool) {
 			// promoted field of a nil embedded pointer: absent
 			return nil, false
 		}
-		if !fv.CanInterface() {
-			// unexported field: not accessible, report absence instead of panicking
-			return nil, false
+		if fv.CanInterface() {
+			return fv.Interface(), true
 		}
-		return fv.Interface(), true
+		// unexported field: not accessible (and no panic) - the name may still be the JSON tag
+		// of an exported one (name string; Name string `json:"name"`), as in the flattened form
 	}
 
 	// Try JSON tag (also of the promoted fields of embedded structs)
 	for _, f := range reflect.VisibleFields(rt) {
 		tag := f.Tag.Get("json")
-		if tag == "" {
+		if tag == "" || !f.IsExported() {
 			continue
 		}
 
